@@ -14,7 +14,29 @@ class ShardPages(interpose.Listener):
         self.pages = []
         self.page_size = 4096
 
+    # another client holding the write lock of one shard for a moment: released after a number of failed attempts
+    holder = None
+    holder_shard = -1
+    holder_fails = 0
+
+    def hold(self, shard, fails):
+        self.holder = interpose.real_connect(os.path.join(self.root, '%03d' % shard, 'cache.db'), timeout=0, isolation_level=None)
+        self.holder.execute('BEGIN IMMEDIATE')
+        self.holder_shard, self.holder_fails = shard, fails
+
+    def release(self):
+        if self.holder is not None:
+            self.holder.execute('ROLLBACK')
+            self.holder.close()
+            self.holder = None
+
     def sql_after(self, conn, sql, params, rows, error):
+        if error is not None and self.holder is not None and sql.lstrip().upper().startswith('BEGIN'):
+            path = getattr(conn, '_verif_path', '') or ''
+            if os.path.basename(os.path.dirname(path)) == '%03d' % self.holder_shard:
+                self.holder_fails -= 1
+                if self.holder_fails <= 0:
+                    self.release()
         if rows and sql.strip().upper().startswith('PRAGMA PAGE_COUNT'):
             path = getattr(conn, '_verif_path', '') or ''
             shard = os.path.basename(os.path.dirname(path))
@@ -33,7 +55,7 @@ class FanoutRunner:
         self.dir = envctl.scratch('fan')
         self.listener = ShardPages(self.dir)
         interpose.install(self.listener, self.dir)
-        self.cache = diskcache.FanoutCache(self.dir, shards=self.n, timeout=1,
+        self.cache = diskcache.FanoutCache(self.dir, shards=self.n, timeout=0.01,
                                            eviction_policy=POLICY[cfg['policy']], cull_limit=cfg['cull'],
                                            size_limit=cfg['limit'], statistics=cfg['stats'],
                                            disk_min_file_size=cfg.get('min_file_size', 2 ** 15))
@@ -91,7 +113,13 @@ class FanoutRunner:
         name, a, form = op['op'], dict(op.get('a', {})), op.get('form', 0)
         self.listener.pages = []
         now = self.clock.tick
-        ret = self.api.call(self.cache, name, a, form)
+        busy = a.pop('busy', None)
+        if busy:
+            self.listener.hold(busy[0] % self.n, busy[1])
+        try:
+            ret = self.api.call(self.cache, name, a, form)
+        finally:
+            self.listener.release()
         rows, ctr, pbe = self.project()
         self.events.append({'op': name, 'a': a, 'now': now, 'pb': list(self.listener.pages), 'pbe': pbe,
                             'ret': ret, 'rows': rows, 'ctr': ctr})
